@@ -10,7 +10,12 @@ WT="/tmp/seedval-$ID"
 OUT="$VERIF/seeded/$ID"
 LOG="$(mktemp)"
 say() { echo "[$ID] $*"; }
-[ -z "$(git -C /repo status --porcelain)" ] || { say "/repo working tree is not clean"; exit 2; }
+PHASE="${PHASE:-all}"      # all | confirm (step 1 only; may run in parallel for several changes) | check (steps 2-3, reuses a stored step 1)
+ONLY_OWN="${ONLY_OWN:-}"   # non-empty: run only the quick check of the change's own property in step 2
+[ "$PHASE" = confirm ] || [ -z "$(git -C /repo status --porcelain)" ] || { say "/repo working tree is not clean"; exit 2; }
+if [ "$PHASE" = check ] && [ -f "$BUG/.confirm" ]; then
+  . "$BUG/.confirm"
+else
 
 # --- 1. confirm in a scratch worktree -----------------------------------------------
 rm -rf "$WT"; git -C /repo worktree prune; git -C /repo worktree add -q --detach "$WT" HEAD || exit 2
@@ -32,6 +37,10 @@ git -C "$WT" checkout -- .
 confirmed=no
 if [ "$demo_orig" = 0 ] && [ "$demo_patched" != 0 ] && [ "$suite_ok" = yes ]; then confirmed=yes; fi
 say "confirmed: $confirmed"
+printf 'confirmed=%s\ndemo_orig=%s\ndemo_patched=%s\nsuite_ok=%s\n' "$confirmed" "$demo_orig" "$demo_patched" "$suite_ok" > "$BUG/.confirm"
+cleanup; trap - EXIT
+fi
+[ "$PHASE" = confirm ] && exit 0
 
 # --- 2. run the checks against it on /repo ------------------------------------------
 export VERIF_NO_EVIDENCE=1
@@ -39,6 +48,7 @@ export VERIF_REPLAY_DIR="/tmp/seedval-replays-$ID"; mkdir -p "$VERIF_REPLAY_DIR"
 git -C /repo apply "$BUG/patch.diff" || exit 3
 declare -A RES
 for p in C05 C19 C20; do
+  if [ -n "$ONLY_OWN" ] && [ "$p" != "$PROP" ]; then RES[$p]="|not run"; continue; fi
   out=$(cd $VERIF && ./check $p quick 2>&1); rc=$?
   inv=$(echo "$out" | grep -E '^(violated invariant|regression replay .* fails again)' | head -1)
   RES[$p]="$rc|$inv"
